@@ -84,7 +84,8 @@ def worker_main(argv):
         if n % 50 == 0:
             out.flush()
         i += a.stride
-    out.write(json.dumps({"done": True, "stats": stats, "n": n}) + "\n")
+    meta = prop.batch_meta() if hasattr(prop, "batch_meta") else {}
+    out.write(json.dumps({"done": True, "stats": stats, "n": n, "meta": meta}) + "\n")
     out.flush()
     return 0
 
@@ -154,6 +155,7 @@ def run_batch(pid, base, tier, first, end, deadline, workers, hashseeds, samples
                     agg["done"] += 1
                     for kk, v in rec["stats"].items():
                         agg["stats"][kk] = agg["stats"].get(kk, 0) + v
+                    agg.setdefault("meta", {}).update(rec.get("meta") or {})
                     continue
                 agg["n"] += 1
                 if rec["s"] == VIOLATION:
@@ -317,7 +319,15 @@ def run_check(pid, tier, runs, budget_s, workers):
     rph = int(n / max(t_explore, 1e-6) * 3600)
     stats = agg["stats"]
     faults = {k[6:]: v for k, v in stats.items() if k.startswith("fault.")}
-    probes = {k: v for k, v in stats.items() if not k.startswith("fault.")}
+    probes = {k: v for k, v in stats.items() if not k.startswith("fault.") and not k.startswith("pp.")}
+    pp_cov = None
+    totals = (agg.get("meta") or {}).get("pp_totals")
+    if totals:
+        pp_cov = {}
+        for fn, n_instr in sorted(totals.items()):
+            hit = sorted(int(k.rsplit(".", 1)[1]) for k in stats if k.startswith(f"pp.{fn}."))
+            pp_cov[fn] = {"instructions": n_instr, "used_for_a_switch": len(hit),
+                          "runs_switching_there_min": min((stats[f"pp.{fn}.{o}"] for o in hit), default=0)}
     evidence = {
         "property_id": pid,
         "tier": tier,
@@ -340,6 +350,7 @@ def run_check(pid, tier, runs, budget_s, workers):
                                "why_null": "no code under this property reads a clock or arms a timer; time is logical steps"},
             "faults_fired": faults,
             "probes": probes,
+            "preemption_point_coverage": pp_cov,
             "workers": workers,
             "hashseeds": list(HASHSEEDS),
             "determinism_recheck": det,
